@@ -151,7 +151,7 @@ func (r *Report) tryReplay(o *Obligation) *replayResult {
 		}
 	}
 	// 2. bounded search with the function's run-time contract harness
-	h := filepath.Join(filepath.Dir(r.ReplayDir), "harness", sanitize(o.Func)+"_test.go")
+	h := filepath.Join(r.HarnessDir, sanitize(o.Func)+"_test.go")
 	if b, err := os.ReadFile(h); err == nil {
 		out, ran := r.runInjectedTest(cu, string(b), "TestGovcHarness")
 		res.rec["harness"] = h
